@@ -208,6 +208,9 @@ class ListField(Field):
         if isinstance(default, (list, tuple)):
             # every configuration gets its own copy of the default, nested containers included
             default = copy.deepcopy(default)
+        if isinstance(default, tuple) and self.field and not isinstance(self.field, AnyField):
+            # a typed list holds validated items, whether its default is written as a list or as a tuple
+            default = list(default)
         if isinstance(default, list):
             if self.field:
                 default = ListProxy(cfg, self, default)
